@@ -8,6 +8,9 @@ import GoDebian.Model.Changelog
 import GoDebian.Model.Dependency
 import GoDebian.Lemmas.ArchIs
 import GoDebian.Lemmas.DepFixTotal
+import GoDebian.Props.C07
+import GoDebian.Lemmas.VersionParse
+import GoDebian.Props.C17
 
 namespace GoDebian.Props.C18
 open GoDebian GoDebian.Dep
@@ -61,5 +64,75 @@ example :
            ⟨sAny, sAny, Bytes.ofString "i386"⟩] ∧
     Dep.parseArchitectures (Bytes.ofString "   ") = .ok [] := by
   decide +kernel
+
+/-! ### the other text parsers (restated here so that C18's evidence lists them) -/
+
+/-- `version.Parse` has no loop and no indexing that can fail: every outcome is a value or
+    the ordinary error -/
+theorem C18_version_total (s : Bytes) :
+    Version.parse s ≠ .error .fuel ∧ Version.parse s ≠ .error .panic := by
+  have key : ∀ e, Version.parse s = .error e → e = .err := by
+    intro e h
+    rw [Lemmas.VersionParse.parse_eq] at h
+    have hfin : ∀ ep u r e, Lemmas.VersionParse.finish ep u r = .error e → e = .err := by
+      intro ep u r e h
+      unfold Lemmas.VersionParse.finish at h
+      repeat' split at h
+      all_goals first | (cases h; rfl) | cases h
+    have hbody : ∀ ep rest e, Lemmas.VersionParse.parseBody ep rest = .error e → e = .err := by
+      intro ep rest e h
+      unfold Lemmas.VersionParse.parseBody at h
+      split at h
+      · cases h; rfl
+      · split at h <;> exact hfin _ _ _ _ h
+    have hep : ∀ t e, Lemmas.VersionParse.epochOf t = .error e → e = .err := by
+      intro t e h
+      unfold Lemmas.VersionParse.epochOf at h
+      split at h
+      · cases h; rfl
+      · split at h
+        · cases h; rfl
+        · cases h
+    split at h
+    · cases h; rfl
+    · split at h
+      · cases h; rfl
+      · unfold Lemmas.VersionParse.parseTrimmed at h
+        split at h
+        · exact hbody _ _ _ h
+        · split at h
+          · rename_i e' he
+            cases h
+            exact hep _ _ he
+          · exact hbody _ _ _ h
+  constructor <;> intro h <;> have := key _ h <;> cases this
+
+/-- never a value together with an error: results are `Except` values (by construction);
+    in particular an accepted version string yields exactly one value -/
+theorem C18_version_xor (s : Bytes) : (∃ v, Version.parse s = .ok v) ∨ (∃ e, Version.parse s = .error e) := by
+  cases h : Version.parse s with
+  | ok v => exact .inl ⟨v, rfl⟩
+  | error e => exact .inr ⟨e, rfl⟩
+
+/-- the control-paragraph reader terminates on every input (from C07) -/
+theorem C18_deb822_total (s : Bytes) :
+    Deb822.all s ≠ .error .fuel ∧ Deb822.all s ≠ .error .panic := Props.C07.C07_all_total s
+
+/-- the changelog parser terminates on every input, whatever the date oracle says (from C17) -/
+theorem C18_changelog_total (s : Bytes) (dateOK : Bytes → Bool) :
+    Changelog.parse s dateOK ≠ .error .fuel ∧ Changelog.parse s dateOK ≠ .error .panic :=
+  Props.C17.C17_total s dateOK
+
+/-- checksum-line parsers: field-count and number checks instead of indexing -/
+theorem C18_filehash_total (alg s : Bytes) :
+    Codec.parseFileHash alg s ≠ .error .panic ∧ Codec.parseChangesHash s ≠ .error .panic := by
+  constructor
+  · unfold Codec.parseFileHash
+    split <;> (try split) <;> simp
+  · unfold Codec.parseChangesHash
+    split <;> (try split) <;> simp
+
+example : Version.parse (Bytes.ofString "1:2.0-3") = .ok ⟨1, Bytes.ofString "2.0", Bytes.ofString "3"⟩ ∧
+    Codec.parseFileHash Codec.sMd5 (Bytes.ofString "abc") = .error .err := by decide +kernel
 
 end GoDebian.Props.C18
